@@ -144,6 +144,7 @@ class SearchModel:
     object_param: str | None = None
     subst: object = None  # substitution used for the guards (boolean locals, boolean helpers, canonical hierarchy atom)
     node_maps: dict[str, NodeMap] = field(default_factory=dict)
+    worklist_filters: list = field(default_factory=list)  # [(condition, variable)] of a filtered copy the worklist starts from
     subtree_maps: dict[str, str] = field(default_factory=dict)  # T -> collection parameter, for `T = {o: get_all_submodules_of(graph, o) for o in P}`
 
     def hier(self, nvar: str | None = None) -> Formula:
@@ -176,7 +177,10 @@ def _allow(caller: FuncInfo, callee: FuncInfo) -> bool:
     if callee.outer is not None:
         return False
     if callee.cls is not None and not _helper_class(callee.cls):
-        return False
+        # a concrete convenience method of the graph base class built on the three accessors (`graph.hierarchy_below(node)`) is part of
+        # the search, not of the vocabulary
+        if not (callee.cls.name == "AbstractGraph" and callee.name not in (SUCC, PRED, HIER, "nodes") and not callee.is_abstract and not callee.is_property):
+            return False
     if callee.module.name == SEARCHES and not callee.name.startswith("_"):
         return False
     if _self_recursive(callee):
@@ -333,6 +337,13 @@ class _FoldBools(ast.NodeTransformer):
         return n
 
 
+def _unique_class(repo: Repo, name: str):
+    """The one class of the library with this simple name (a substituted helper body may come from another module than the view's,
+    and a second substitution pass forgets which)."""
+    found = [c for c in repo.classes.values() if c.name == name]
+    return found[0] if len(found) == 1 else None
+
+
 def _record_fields(repo: Repo, mod, func: ast.AST) -> tuple[list[str], bool] | None:
     """(field names in positional order, the record can be unpacked like a tuple) for a call target that is a plain record class of
     the library: a `typing.NamedTuple` class, a `collections.namedtuple(..)` constant, or a dataclass without hand-written
@@ -342,7 +353,7 @@ def _record_fields(repo: Repo, mod, func: ast.AST) -> tuple[list[str], bool] | N
     fq = repo.resolve_name(mod, func)
     ci = repo.classes.get(fq) if fq else None
     if ci is None and isinstance(func, ast.Name):
-        ci = mod.classes.get(func.id)
+        ci = mod.classes.get(func.id) or _unique_class(repo, func.id)
     if ci is not None:
         hooks = {"__init__", "__new__", "__post_init__", "__iter__", "__getattr__", "__getattribute__", "__getitem__"}
         if hooks & set(ci.methods):
@@ -867,7 +878,7 @@ def _class_of_call(repo: Repo, view: FuncInfo, call: ast.Call):
     fq = repo.resolve_name(mod, call.func)
     ci = repo.classes.get(fq) if fq else None
     if ci is None and isinstance(call.func, ast.Name):
-        ci = mod.classes.get(call.func.id)
+        ci = mod.classes.get(call.func.id) or _unique_class(repo, call.func.id)
     return ci
 
 
@@ -1246,8 +1257,116 @@ def _inline_local_callables(view: FuncInfo) -> bool:
                 defs[tgt.id] = n.value
             elif isinstance(n.value, ast.Attribute) and isinstance(n.value.value, ast.Name) and n.value.attr in (_GROW | _SHRINK | {"__contains__"}) and stores.get(n.value.value.id, 0) <= 1:
                 defs[tgt.id] = n.value  # a bound method of a local collection
+    # local generator functions (`def visit(node): .. yield child`): consumed by `X.extend(visit(n))` or `for v in visit(n):`
+    gens: dict[str, ast.FunctionDef] = {}
+    for n in ast.walk(fn):
+        if isinstance(n, ast.FunctionDef) and n is not fn and stores.get(n.name) == 1 and n.name not in params and not n.decorator_list:
+            a = n.args
+            inner = [x for s_ in n.body for x in ast.walk(s_)]
+            if a.vararg or a.kwarg or a.kwonlyargs or a.defaults or not any(isinstance(x, ast.Yield) for x in inner):
+                continue
+            if any(isinstance(x, (ast.YieldFrom, ast.Await, ast.Global, ast.FunctionDef, ast.AsyncFunctionDef, ast.ClassDef, ast.Return, ast.Try, ast.With)) for x in inner):
+                continue
+            if any(isinstance(x, ast.Yield) and (x.value is None or not isinstance(parent(x), ast.Expr)) for x in inner):
+                continue
+            if any(isinstance(c, ast.Call) and isinstance(c.func, ast.Name) and c.func.id == n.name for c in inner):
+                continue
+            gens[n.name] = n
+    if gens:
+        def expand_gen(g: ast.FunctionDef, call: ast.Call, target: ast.expr, body: list[ast.stmt], at: ast.stmt) -> list[ast.stmt] | None:
+            pos_ = [p_.arg for p_ in [*g.args.posonlyargs, *g.args.args]]
+            if any(isinstance(x, ast.Starred) for x in call.args) or call.keywords or len(call.args) != len(pos_):
+                return None
+            if any(isinstance(x, (ast.Break, ast.Continue)) for b in body for x in ast.walk(b)):
+                return None
+            src_body = [_clone(s_) for s_ in g.body if not (isinstance(s_, ast.Expr) and isinstance(s_.value, ast.Constant)) and not isinstance(s_, ast.Nonlocal)]
+            stored = {n_.id for s_ in src_body for n_ in ast.walk(s_) if isinstance(n_, ast.Name) and isinstance(n_.ctx, ast.Store)} - {nm for s_ in g.body if isinstance(s_, ast.Nonlocal) for nm in s_.names}
+            prefix: list[ast.stmt] = []
+            ren: dict[str, str] = {}
+            for p_, val in zip(pos_, call.args):
+                if isinstance(val, ast.Name) and p_ not in stored:
+                    ren[p_] = val.id
+                else:
+                    new_ = p_ if p_ not in taken else f"{p_}__{g.name.strip('_')}"
+                    while new_ in taken and new_ != p_:
+                        new_ += "_"
+                    taken.add(new_)
+                    ren[p_] = new_
+                    prefix.append(ast.copy_location(ast.Assign(targets=[ast.Name(id=new_, ctx=ast.Store())], value=val), at))
+            for l_ in sorted(stored - set(pos_)):
+                if l_ in taken:
+                    new_ = f"{l_}__{g.name.strip('_')}"
+                    while new_ in taken:
+                        new_ += "_"
+                    taken.add(new_)
+                    ren[l_] = new_
+                else:
+                    taken.add(l_)
+
+            def subst_(stmts: list[ast.stmt]) -> list[ast.stmt]:
+                out_: list[ast.stmt] = []
+                for x in stmts:
+                    if isinstance(x, ast.Expr) and isinstance(x.value, ast.Yield):
+                        out_.append(ast.copy_location(ast.Assign(targets=[_clone(target)], value=x.value.value), x))
+                        out_ += _clone(body)
+                        continue
+                    for fld in ("body", "orelse"):
+                        blk = getattr(x, fld, None)
+                        if isinstance(blk, list) and blk and isinstance(blk[0], ast.stmt):
+                            setattr(x, fld, subst_(blk) or [ast.copy_location(ast.Pass(), x)])
+                    out_.append(x)
+                return out_
+
+            new_body = subst_(src_body)
+            lam_safe = set(ren)
+            for s_ in new_body:
+                for n_ in ast.walk(s_):
+                    if isinstance(n_, ast.Name) and n_.id in lam_safe and not any(isinstance(a_, ast.Lambda) and any(q.arg == n_.id for q in a_.args.args) for a_ in []):
+                        n_.id = ren[n_.id]
+            return prefix + new_body
+
+        def gen_block(stmts: list[ast.stmt]) -> list[ast.stmt]:
+            nonlocal changed
+            out_: list[ast.stmt] = []
+            for st in stmts:
+                if isinstance(st, (ast.FunctionDef, ast.AsyncFunctionDef, ast.ClassDef)):
+                    out_.append(st)
+                    continue
+                for fld in ("body", "orelse", "finalbody"):
+                    blk = getattr(st, fld, None)
+                    if isinstance(blk, list) and blk and isinstance(blk[0], ast.stmt):
+                        setattr(st, fld, gen_block(blk) or [ast.copy_location(ast.Pass(), st)])
+                got_ = None
+                if isinstance(st, ast.Expr) and isinstance(st.value, ast.Call) and isinstance(st.value.func, ast.Attribute) and st.value.func.attr in ("extend", "update") and isinstance(st.value.func.value, ast.Name) and len(st.value.args) == 1 and isinstance(st.value.args[0], ast.Call) and isinstance(st.value.args[0].func, ast.Name) and st.value.args[0].func.id in gens:
+                    tmp = "yielded"
+                    while tmp in taken:
+                        tmp += "_"
+                    taken.add(tmp)
+                    add_ = ast.copy_location(ast.Expr(value=ast.Call(func=ast.Attribute(value=_clone(st.value.func.value), attr="append" if st.value.func.attr == "extend" else "add", ctx=ast.Load()), args=[ast.Name(id=tmp, ctx=ast.Load())], keywords=[])), st)
+                    got_ = expand_gen(gens[st.value.args[0].func.id], st.value.args[0], ast.Name(id=tmp, ctx=ast.Store()), [add_], st)
+                elif isinstance(st, ast.For) and not st.orelse and isinstance(st.iter, ast.Call) and isinstance(st.iter.func, ast.Name) and st.iter.func.id in gens:
+                    got_ = expand_gen(gens[st.iter.func.id], st.iter, st.target, st.body, st)
+                if got_ is not None:
+                    out_ += got_
+                    changed = True
+                    continue
+                out_.append(st)
+            return out_
+
+        fn.body = gen_block(fn.body)
+        ast.fix_missing_locations(fn)
+        set_parents(fn)
+        for name, g in gens.items():
+            if not any(isinstance(n, ast.Name) and n.id == name and isinstance(n.ctx, ast.Load) for n in ast.walk(fn)):
+                for blk in _blocks(fn):
+                    if any(x is g for x in blk):
+                        blk.remove(g)
+                        if not blk:
+                            blk.append(ast.copy_location(ast.Pass(), g))
+                        changed = True
+                        break
     if not defs:
-        return False
+        return changed
 
     def bind(a: ast.arguments, call: ast.Call) -> dict[str, ast.expr] | None:
         pos = [p_.arg for p_ in [*a.posonlyargs, *a.args]]
@@ -1374,6 +1493,22 @@ def _inline_local_callables(view: FuncInfo) -> bool:
             if isinstance(st, ast.Try):
                 for h in st.handlers:
                     h.body = block(h.body) or [ast.copy_location(ast.Pass(), st)]
+            # `X.extend(g(a))` with a plain local function: `tmp = g(a)` first
+            if isinstance(st, ast.Expr) and isinstance(st.value, ast.Call) and isinstance(st.value.func, ast.Attribute) and len(st.value.args) == 1 and isinstance(st.value.args[0], ast.Call) and isinstance(st.value.args[0].func, ast.Name) and isinstance(defs.get(st.value.args[0].func.id), ast.FunctionDef):
+                tmp_ = f"result_of_{st.value.args[0].func.id.strip('_')}"
+                while tmp_ in taken:
+                    tmp_ += "_"
+                taken.add(tmp_)
+                pre = ast.copy_location(ast.Assign(targets=[ast.Name(id=tmp_, ctx=ast.Store())], value=st.value.args[0]), st)
+                st.value.args[0] = ast.copy_location(ast.Name(id=tmp_, ctx=ast.Load()), st)
+                got0 = body_of(defs[pre.value.func.id], pre.value, pre, want_value=True)
+                if got0 is not None:
+                    stmts0, value0 = got0
+                    pre.value = value0
+                    out += stmts0 + [pre, st]
+                    changed = True
+                    continue
+                st.value.args[0] = pre.value
             call = st.value if isinstance(st, (ast.Expr, ast.Assign, ast.AnnAssign)) and isinstance(getattr(st, "value", None), ast.Call) else None
             if call is not None and isinstance(call.func, ast.Name) and isinstance(defs.get(call.func.id), ast.FunctionDef):
                 got = body_of(defs[call.func.id], call, st, want_value=not isinstance(st, ast.Expr))
@@ -2054,6 +2189,97 @@ def _superset_copies(fn: ast.AST, params: set[str]) -> dict[str, tuple[ast.AST, 
     return out
 
 
+def _remaining_sets_to_visited(fn: ast.AST, params: set[str]) -> None:
+    """`U = A - B` (set algebra / a copy, bound once at top level) that afterwards only *shrinks* by single nodes (`U.remove(x)`,
+    `U.discard(x)`) is the set of nodes still to be handled: U = (A - B) minus what was taken out.  Rewritten with an explicit
+    set of handled nodes, so that the usual visited-set reading applies:
+
+        U = A - B                       U = A - B; U__done = set()
+        if n not in U: continue    ->   if n not in (A - B) or n in U__done: continue
+        U.remove(n)                     U__done.add(n)"""
+    set_parents(fn)
+    mut = _mutation_positions(fn)
+    pos = mut["@pos"]
+    stores: dict[str, int] = {}
+    vals: dict[str, ast.expr] = {}
+    for n in ast.walk(fn):
+        if isinstance(n, ast.Name) and isinstance(n.ctx, (ast.Store, ast.Del)):
+            stores[n.id] = stores.get(n.id, 0) + 1
+        if isinstance(n, ast.Assign) and len(n.targets) == 1 and isinstance(n.targets[0], ast.Name):
+            vals[n.targets[0].id] = n.value
+        elif isinstance(n, ast.AnnAssign) and isinstance(n.target, ast.Name) and n.value is not None:
+            vals[n.target.id] = n.value
+    taken = {n.id for n in ast.walk(fn) if isinstance(n, ast.Name)}
+    for u, val in vals.items():
+        if u in params or stores.get(u) != 1:
+            continue
+        x = strip(val)
+        if isinstance(x, ast.Name):
+            if x is val or x.id == u:
+                continue
+        elif not (isinstance(x, (ast.BinOp, ast.Call)) and _set_algebra(x)):
+            continue
+        st = stmt_of(val)
+        if st is None or parent(st) is not fn:
+            continue
+        here = pos.get(id(val), -1)
+        operands = {n.id for n in ast.walk(x) if isinstance(n, ast.Name)}
+        if u in operands or any(p_ > here for o_ in operands for p_ in mut.get(o_, [])):
+            continue
+        shrinks: list[ast.Call] = []
+        ok = True
+        for n in ast.walk(fn):
+            if isinstance(n, ast.Call) and isinstance(n.func, ast.Attribute) and isinstance(n.func.value, ast.Name) and n.func.value.id == u:
+                if n.func.attr in ("remove", "discard") and len(n.args) == 1 and not n.keywords and isinstance(parent(n), ast.Expr):
+                    shrinks.append(n)
+                elif n.func.attr in (_GROW | _SHRINK):
+                    ok = False
+            elif isinstance(n, ast.AugAssign) and isinstance(n.target, ast.Name) and n.target.id == u:
+                ok = False
+        if not ok or not shrinks:
+            continue
+        # every other use of U is a membership test after its binding
+        tests: list[ast.Compare] = []
+        for n in ast.walk(fn):
+            if isinstance(n, ast.Name) and n.id == u and isinstance(n.ctx, ast.Load):
+                par = parent(n)
+                if isinstance(par, ast.Attribute) and isinstance(parent(par), ast.Call) and any(parent(par) is c for c in shrinks):
+                    continue
+                if isinstance(par, ast.Compare) and len(par.ops) == 1 and isinstance(par.ops[0], (ast.In, ast.NotIn)) and par.comparators[0] is n and pos.get(id(par), -1) > here:
+                    tests.append(par)
+                    continue
+                ok = False
+        if not ok or not tests:
+            continue
+        done = f"{u}__done"
+        while done in taken:
+            done += "_"
+        taken.add(done)
+        for c in shrinks:
+            c.func.value = ast.copy_location(ast.Name(id=done, ctx=ast.Load()), c.func.value)
+            c.func.attr = "add"
+        for t in tests:
+            is_in = isinstance(t.ops[0], ast.In)
+            base = ast.copy_location(ast.Compare(left=_clone(t.left), ops=[ast.In() if is_in else ast.NotIn()], comparators=[ast.copy_location(_clone(x), t)]), t)
+            handled = ast.copy_location(ast.Compare(left=_clone(t.left), ops=[ast.NotIn() if is_in else ast.In()], comparators=[ast.copy_location(ast.Name(id=done, ctx=ast.Load()), t)]), t)
+            new = ast.copy_location(ast.BoolOp(op=ast.And() if is_in else ast.Or(), values=[base, handled]), t)
+            for n_ in (base, handled, new):
+                if hasattr(t, "_src"):
+                    n_._src = t._src  # type: ignore[attr-defined]
+            par = parent(t)
+            for fld, v_ in ast.iter_fields(par):
+                if v_ is t:
+                    setattr(par, fld, new)
+                elif isinstance(v_, list):
+                    for i, y in enumerate(v_):
+                        if y is t:
+                            v_[i] = new
+        init = ast.copy_location(ast.Assign(targets=[ast.Name(id=done, ctx=ast.Store())], value=ast.Call(func=ast.Name(id="set", ctx=ast.Load()), args=[], keywords=[])), st)
+        fn.body.insert(next(i for i, b in enumerate(fn.body) if b is st) + 1, init)
+        ast.fix_missing_locations(fn)
+        set_parents(fn)
+
+
 def _expand_superset_tests(fn: ast.AST, params: set[str]) -> None:
     """With V >= X (see _superset_copies) `e in V` is `e in V or e in X` and `e not in V` is `e not in V and e not in X`: written out,
     so that what a test of the merged set (`closed = set(excluded)`, then every expanded node is added) says about the set it was
@@ -2120,6 +2346,7 @@ def search_view(repo: Repo, fi: FuncInfo) -> FuncInfo:
     node.body = _thread_none_exits(node.body)
     _eliminate_aliases(node, set(fi.param_names))
     _propagate_copies(node, set(fi.param_names))
+    _remaining_sets_to_visited(node, set(fi.param_names))
     _expand_superset_tests(node, set(fi.param_names))
     node.body = _split_conditions(node.body)
     ast.fix_missing_locations(node)
@@ -2545,6 +2772,8 @@ def _iter_elements(e: ast.expr, single: dict[str, ast.expr]) -> list[tuple[ast.A
     if isinstance(e, ast.Name) and e.id in single and isinstance(strip(single[e.id]), _COMPS):
         c = strip(single[e.id])
         return [(c.elt, c)]
+    if isinstance(e, ast.Name) and e.id in single and isinstance(single[e.id], ast.Tuple) and not single[e.id].elts:
+        return []  # `nothing = ()` .. `W.extend(nothing)`: no element (an empty tuple stays empty)
     if isinstance(e, ast.BinOp) and isinstance(e.op, (ast.Add, ast.BitOr)):
         return _iter_elements(e.left, single) + _iter_elements(e.right, single)
     if isinstance(e, ast.IfExp):
@@ -2623,8 +2852,11 @@ def _node_expr_text(e: ast.AST, single: dict[str, ast.expr]) -> str:
     return norm(e)
 
 
-def _worklist_sources(fn: ast.AST, worklist_expr: ast.AST, outer: ast.AST, single: dict[str, ast.expr]) -> tuple[list[str], list[ast.stmt]]:
-    """Names of the sets / node expressions a worklist is initialised from, and the initialising statements."""
+def _worklist_sources(fn: ast.AST, worklist_expr: ast.AST, outer: ast.AST, single: dict[str, ast.expr], filters: list | None = None) -> tuple[list[str], list[ast.stmt]]:
+    """Names of the sets / node expressions a worklist is initialised from, and the initialising statements; the conditions of a
+    filtered copy (`[n for n in S if c]`) are appended to `filters` as (condition, variable)."""
+    if filters is None:
+        filters = []
 
     def sources_of(e: ast.AST, depth: int = 0) -> list[str]:
         e = strip(e)
@@ -2637,6 +2869,12 @@ def _worklist_sources(fn: ast.AST, worklist_expr: ast.AST, outer: ast.AST, singl
             return sources_of(e.args[0])
         if isinstance(e, ast.Name) and e.id in single and isinstance(strip(single[e.id]), (ast.List, ast.Tuple, ast.Set)) and depth < 3:
             return sources_of(single[e.id], depth + 1)  # `start_nodes = [node]` .. `W = list(start_nodes)`
+        if isinstance(e, ast.Name) and e.id in single and depth < 3 and isinstance(strip(single[e.id]), ast.Name) and strip(single[e.id]) is not single[e.id]:
+            return sources_of(single[e.id], depth + 1)  # `start = list(own)` .. `W = list(start)`: a copy of a copy
+        if isinstance(e, _COMPS) and len(e.generators) == 1 and isinstance(e.elt, ast.Name) and isinstance(e.generators[0].target, ast.Name) and e.elt.id == e.generators[0].target.id and depth < 3:
+            # a filtered copy `[n for n in S if c]`: starts from (part of) S; which part is recorded for the rules
+            filters.extend((c, e.generators[0].target.id) for c in e.generators[0].ifs)
+            return sources_of(e.generators[0].iter, depth + 1)
         return [norm(e)]
 
     base = strip(worklist_expr)
@@ -3075,7 +3313,8 @@ def build(repo: Repo, fi: FuncInfo) -> SearchModel | None:
     model.other_expansions = [e for e, bb in bound if bb is None]
     model.neighbour_calls = ncalls
     model.subst = make_subst(repo, v)
-    model.worklist_sources, model.worklist_inits = _worklist_sources(fn, wl_expr, outer, single)
+    model.worklist_filters = []
+    model.worklist_sources, model.worklist_inits = _worklist_sources(fn, wl_expr, outer, single, model.worklist_filters)
 
     # ---- hierarchy tests
     model.hier_calls = [c for c in ast.walk(fn) if isinstance(c, ast.Call) and isinstance(c.func, ast.Attribute) and c.func.attr == HIER and (in_outer(c) or niter_of(c) is not None)]
